@@ -7,8 +7,8 @@
 fn shim_copy_aes_to_sink<R: Read>(reader: &mut AesReaderValid<R>) -> (r: io::Result<()>)
     ensures
         final(reader).g_mode() == old(reader).g_mode() && final(reader).g_password() == old(reader).g_password(),
-        old(reader).g_finalized() ==> final(reader).g_finalized(),
-        r is Ok ==> final(reader).g_finalized(),
+        old(reader).g_authenticated() ==> final(reader).g_authenticated(),
+        r is Ok ==> final(reader).g_authenticated(),
 {
     let mut buffer = [0u8; 8192];
     let mut len: u64 = 0;
@@ -16,7 +16,7 @@ fn shim_copy_aes_to_sink<R: Read>(reader: &mut AesReaderValid<R>) -> (r: io::Res
         invariant
             buffer@.len() == 8192,
             reader.g_mode() == old(reader).g_mode() && reader.g_password() == old(reader).g_password(),
-            old(reader).g_finalized() ==> reader.g_finalized(),
+            old(reader).g_authenticated() ==> reader.g_authenticated(),
             len + reader.g_remaining() <= u64::MAX,
         decreases reader.g_remaining(),
     {
